@@ -137,7 +137,12 @@ impl Check for C06 {
                     c.names.retain(|(n, _)| n.key() != name.key());
                     c.names.push((name.clone(), code));
                     c.pending_use = true;
-                    lines.push(Line::Sem(Stmt::Assign { name: g.name_use(&mut r, &name), e: Expr::Lit(Lit::Money(ml)) }));
+                    let e = if r.chance(1, 4) {
+                        // bound to a sum or difference of two amounts in different currencies: its value depends on the table as it is now
+                        let other = g.money(&mut r);
+                        Expr::Bin { l: Box::new(Expr::Lit(Lit::Money(ml))), op: *r.pick(&['+', '-']), r: Box::new(Expr::Lit(Lit::Money(other))), tight: false }
+                    } else { Expr::Lit(Lit::Money(ml)) };
+                    lines.push(Line::Sem(Stmt::Assign { name: g.name_use(&mut r, &name), e }));
                 } else if thorough_pairs && r.chance(1, 3) {
                     // systematic pair coverage: pair index derived from the seed
                     let a = g.rated[(seed as usize / 7 + lines.len()) % g.rated.len()].clone();
